@@ -202,6 +202,9 @@ func normalize(t *Term) *Term {
 		return reassoc(t)
 	case "gate":
 		// a flag parameter replaced by a constant selects one arm
+		if len(t.Args) == 3 && t.Args[0].Op == "zero" && len(t.Args[0].Args) == 0 {
+			return t.Args[2]
+		}
 		if len(t.Args) == 3 && t.Args[0].Op == "const" {
 			switch t.Args[0].S {
 			case "true":
@@ -534,7 +537,7 @@ func (e *termEngine) callTermAt(c *ssa.CallCommon, at ssa.Instruction) *Term {
 				e.snapping[al] = true
 				snap := e.loadPath(al, nil, at)
 				delete(e.snapping, al)
-				if snap != nil && (snap.Op == "update" || snap.Op == "struct" || snap.Op == "zero") {
+				if snap != nil && (snap.Op == "update" || snap.Op == "struct" || snap.Op == "zero" || snap.Op == "param") {
 					t = &Term{Op: t.Op, S: t.S, Snap: snap}
 				}
 			}
